@@ -14,7 +14,9 @@ def perpendicular_vector(v):
     Compute a vector perpendicular to the input vector
     """
 
-    if v.z.values == 0:
+    # If z is zero, or so small that the slope (x + y) / z would overflow when the
+    # result is normalized, use (-y, x, 0) which is always perpendicular to v
+    if np.abs(v.z.values) <= 1.0e-100 * max(np.abs(v.x.values), np.abs(v.y.values)):
         return Vector(-v.y.values, v.x.values, 0, unit=v.unit)
     else:
         return Vector(1.0, 1.0, (-1.0 * (v.x + v.y) / v.z).values, unit=v.unit)
@@ -288,12 +290,11 @@ class Vector(Base):
 
 class VectorBasis:
     def __init__(self, n, u=None, v=None):
-        self.n = n
-        self.u = perpendicular_vector(self.n) if u is None else u
-        self.v = self.n.cross(self.u) if v is None else v
-        self.n = normalize(self.n)
-        self.u = normalize(self.u)
-        self.v = normalize(self.v)
+        # Normalize before taking the cross product: the product of two long (or
+        # integer) vectors can overflow
+        self.n = normalize(n)
+        self.u = normalize(perpendicular_vector(self.n) if u is None else u)
+        self.v = normalize(self.n.cross(self.u) if v is None else v)
         self.n.name = n.name
         if u is not None:
             self.u.name = u.name
